@@ -14,6 +14,8 @@ pub mod setup;
 pub mod tickets;
 pub mod token_send;
 pub mod user_interactions;
+#[cfg(launchpad_verif)]
+pub mod verif_hooks;
 pub mod winner_selection;
 
 use config::TimelineConfig;
